@@ -162,7 +162,10 @@ def numeric_leaf(kind, shape, form):
         return [enc(y) for y in x] if isinstance(x, list) else enc_num(x)
     if form == "list":
         return {"l": enc(nested)}
-    return {"a": enc(nested), "d": {"int": "i8", "float": "f8", "complex": "c16"}[kind]}
+    node = {"a": enc(nested), "d": {"int": "i8", "float": "f8", "complex": "c16"}[kind]}
+    if ":" in form:
+        node["o"] = form.split(":")[1]     # memory layout of the ndarray operand
+    return node
 
 
 ATOMS = None
@@ -394,8 +397,10 @@ def run_case(case, R, extra_check=None):
         for pk in ("int", "float", "complex"):
             p = P(arr(shape, pk, 1))
             for nk in ("int", "float", "complex"):
-                for form in ("pyscalar", "npscalar", "array", "list"):
-                    for nshape in ([()] if form.endswith("scalar") else [shape, shape[-1:], (1,) * len(shape)]):
+                for form in ("pyscalar", "npscalar", "array", "list", "array:F", "array:rev", "array:T", "array:ro"):
+                    if form in ("array:F", "array:T") and len(shape) < 2 or form == "array:rev" and not shape:
+                        continue
+                    for nshape in ([()] if form.endswith("scalar") else [shape, shape[-1:], (1,) * len(shape)] if ":" not in form else [shape]):
                         if form == "list" and nshape == ():
                             continue
                         leaf = numeric_leaf(nk, nshape, form)
